@@ -4,6 +4,7 @@ import (
 	"context"
 	"io"
 	"net/http"
+	"strings"
 	"sync"
 	"sync/atomic"
 	"time"
@@ -324,8 +325,8 @@ func (s *httpStream) SetTrailer(md metadata.MD) {
 		// gRPC services usually don't return a "Trailer" header containing a list of all the trailers,
 		// so we set these headers using the TrailerPrefix functionality, and they will be sent after ServeHTTP returns.
 		for k, v := range md {
-			k = http.CanonicalHeaderKey(http.TrailerPrefix + k)
-			s.w.Header()[k] = append(s.w.Header()[k], v...)
+			hk := http.CanonicalHeaderKey(http.TrailerPrefix + k)
+			s.w.Header()[hk] = append(s.w.Header()[hk], headerValues(k, v)...)
 		}
 		return
 	}
@@ -337,9 +338,28 @@ func (s *httpStream) SetTrailer(md metadata.MD) {
 
 func appendHeaders(w http.ResponseWriter, md metadata.MD) {
 	for k, v := range md {
-		k = http.CanonicalHeaderKey(k)
-		w.Header()[k] = append(w.Header()[k], v...)
+		hk := http.CanonicalHeaderKey(k)
+		w.Header()[hk] = append(w.Header()[hk], headerValues(k, v)...)
 	}
+}
+
+// headerValues returns the form in which the values of a metadata key are written into HTTP response headers and trailers.
+// gRPC-Go hands over binary (-bin) values decoded, i.e. as arbitrary bytes, but an HTTP header is a text carrier:
+// net/http writes bytes such as NUL or 0xff as-is (clients reject such responses), turns CR and LF into spaces and
+// trims blanks, so the client could not get the target's bytes back. Binary values are therefore base64-encoded again,
+// like gRPC does it on the wire and like the gRPC-Web trailer frame does it (lpmTrailerValue).
+func headerValues(k string, vs []string) []string {
+	// metadata.MD keys are lowercase, this is the test gRPC-Go itself uses
+	if !strings.HasSuffix(k, "-bin") {
+		return vs
+	}
+
+	enc := make([]string, len(vs))
+	for i, v := range vs {
+		enc[i] = lpmTrailerValue(k, v)
+	}
+
+	return enc
 }
 
 // requestBodyDrainTimeout bounds how long net/http may wait for the rest of a request body once the call has ended.
